@@ -144,10 +144,28 @@ pub mod rust_log_ref_finder
                     let rule_ref_container_span = rule_l2.as_span();
                     let mut kvp_spans: Vec<(pest::Span, Option<pest::Span>)> = Vec::new();
 
+                    /*
+                     * A target argument has to stay the first argument, so when one is present a
+                     * new key-value pair goes in front of whatever follows it.
+                     */
+                    let mut has_target_arg = false;
+                    let mut first_arg_after_target: Option<pest::Position> = None;
+
                     for rule in rule_l2.into_inner()
                     {
+                        if has_target_arg
+                            && first_arg_after_target.is_none()
+                            && rule.as_rule() != Rule::target_arg
+                        {
+                            first_arg_after_target = Some(rule.as_span().start_pos());
+                        }
+
                         match rule.as_rule()
                         {
+                            Rule::target_arg =>
+                            {
+                                has_target_arg = true;
+                            },
                             Rule::string_literal =>
                             {
                                 log_message_span = match rule.into_inner().next()
@@ -264,11 +282,19 @@ pub mod rust_log_ref_finder
                                 insertion_suffix = Some("; ".to_string());
                             }
 
-                            code_pos = Some(CodePosition::new(
-                                rule_ref_container_span.start() + 1,
-                                rule_ref_container_span.start_pos().line_col().0,
-                                rule_ref_container_span.start_pos().line_col().1 + 1,
-                            ));
+                            code_pos = match first_arg_after_target
+                            {
+                                Some(pos) => Some(CodePosition::new(
+                                    pos.pos(),
+                                    pos.line_col().0,
+                                    pos.line_col().1,
+                                )),
+                                None => Some(CodePosition::new(
+                                    rule_ref_container_span.start() + 1,
+                                    rule_ref_container_span.start_pos().line_col().0,
+                                    rule_ref_container_span.start_pos().line_col().1 + 1,
+                                )),
+                            };
                         }
                     }
                     else
